@@ -57,35 +57,26 @@ def finish (pre : String) (r : Obj × Except String String) : Obj × String :=
 
 /-- `DT_VERNEEDNUM` / `DT_VERDEFNUM` as the constructors of the version accessors find it: the dynamic
     accessor (C12's model) on the first section named `.dynamic` -/
-def dynNum (o : Obj) (tag : Nat) : M (Obj × BitVec 32) :=
+def dynNum (o : Obj) (need : Bool) : M (Obj × BitVec 32) :=
   let nm : Bytes := ".dynamic".toUTF8.toList
+  let none' : M (Obj × BitVec 32) := match TQ.verCount need none with
+    | .error f => .error f
+    | .ok v => pure (o, v)
   match o.secs.findIdx? (fun s => s.name == nm) with
-  | none => pure (o, 0)
+  | none => none'
   | some di =>
     match settle o di with
-    | none => pure (o, 0)
+    | none => none'
     | some (o1, d) =>
       let (o2, str) := match settle o1 (dyn_strtab_index d.link).toNat with
         | none => (o1, none)
         | some (o2, s) => (o2, some s)
       let a0 : DynAcc := { cfg := ⟨o2.cls, o2.enc⟩, sec := d, str := str }
-      match a0.entriesNum with
+      -- the constructor's scan of `.dynamic` is the model `TQ.verCount` (generated loop condition, tag test,
+      -- increment, truncation)
+      match TQ.verCount need (some a0) with
       | .error f => .error f
-      | .ok (a1, n) =>
-        let rec go (fuel : Nat) (a : DynAcc) (k : BitVec 64) : M (BitVec 32) :=
-          match fuel with
-          | 0 => pure 0
-          | fuel + 1 =>
-            if k.toNat ≥ n.toNat then pure 0 else
-            match a.getEntry k with
-            | .error f => .error f
-            | .ok (a', r) =>
-              match r with
-              | .ok t v _ => if t.toNat == tag then pure (v.setWidth 32) else go fuel a' (k + 1)
-              | _ => go fuel a' (k + 1)
-        match go n.toNat a1 0 with
-        | .error f => .error f
-        | .ok v => pure (o2, v)
+      | .ok v => pure (o2, v)
 
 def attrsStr (a : Attrs) : String :=
   s!"{a.size.toNat}/{a.bind.toNat}/{a.typ.toNat}/{a.shndx.toNat}/{a.other.toNat}"
@@ -157,7 +148,7 @@ def step (o : Obj) (t : List String) : Option (Obj × String) :=
       | some (o1, _) =>
         let need := op == "verneed"
         -- the constructor reads the entry count from `.dynamic` (C12's accessor model)
-        match dynNum o1 (if need then DT_VERNEEDNUM else DT_VERDEFNUM) with
+        match dynNum o1 need with
         | .error f => some (o1, f.render)
         | .ok (o2, num) =>
           some <| finish s!"{op} n={num.toNat}" <| forIdx o2 (bidx num.toNat false)
